@@ -285,36 +285,57 @@ Qed.
 Lemma Zfloor_half_le r : IZR (Zfloor (r / 2)) <= r / 2.
 Proof. apply Zfloor_lb. Qed.
 
+(* the triangular test (after 82a0881): not (0 <= low < min(high, nyquist) and high <= nyquist + 1) *)
+Lemma tri_rejects_shape low high rate :
+  tri_rejects_some low high rate
+  = ~ ((0 <= low /\ low < Rmin high (rate / 2)) /\ high <= rate / 2 + 1).
+Proof. reflexivity. Qed.
+
 Lemma tri_range_rejected_l low high rate :
-  low < 0 \/ high <= low \/ high > rate / 2 + 1 -> tri_rejects_some low high rate.
-Proof. unfold tri_rejects_some. cbv zeta. intros H (A & B & C). lra. Qed.
+  low < 0 \/ high <= low \/ rate / 2 <= low \/ high > rate / 2 + 1 -> tri_rejects_some low high rate.
+Proof.
+  rewrite tri_rejects_shape. intros H [[A B] C]. unfold Rmin in B. destruct (Rle_dec high (rate / 2)); lra.
+Qed.
 
 Lemma tri_range_rejected_none_l low rate : low < 0 \/ rate / 2 <= low -> tri_rejects_none low rate.
-Proof. unfold tri_rejects_none. cbv zeta. intros H (A & B & C). lra. Qed.
+Proof.
+  unfold tri_rejects_none. cbv zeta. intros H [[A B] C]. unfold Rmin in B. destruct (Rle_dec (rate / 2) (rate / 2)); lra.
+Qed.
 
 Lemma tri_range_accepted_l low high rate :
-  0 <= low -> low < high -> high <= rate / 2 + 1 -> ~ tri_rejects_some low high rate.
-Proof. unfold tri_rejects_some. cbv zeta. intros A B C H. apply H. lra. Qed.
+  0 <= low -> low < Rmin high (rate / 2) -> high <= rate / 2 + 1 -> ~ tri_rejects_some low high rate.
+Proof. rewrite tri_rejects_shape. intros A B C H. apply H. tauto. Qed.
 
+(* exactly the accepted set *)
+Lemma tri_accepts_iff_l low high rate :
+  ~ tri_rejects_some low high rate <-> (0 <= low /\ low < Rmin high (rate / 2) /\ high <= rate / 2 + 1).
+Proof.
+  rewrite tri_rejects_shape. split.
+  - intros H. destruct (Rle_dec 0 low); destruct (Rlt_dec low (Rmin high (rate / 2)));
+      destruct (Rle_dec high (rate / 2 + 1)); try tauto; exfalso; apply H; intros [[X Y] Z]; lra.
+  - intros (A & B & C) H. apply H. tauto.
+Qed.
+
+(* every ACCEPTED triangular range is valid: 0 <= low < effective high <= nyquist (no side condition) *)
 Lemma tri_effective_high_l low high rate :
-  ~ tri_rejects_some low high rate -> low < rate / 2 ->
+  ~ tri_rejects_some low high rate ->
   0 <= low /\ low < tri_high_some high rate /\ tri_high_some high rate <= rate / 2
   /\ tri_high_some high rate <= high.
 Proof.
-  unfold tri_rejects_some, tri_high_some. cbv zeta. intros H Hl.
-  assert (0 <= low /\ low < high /\ high <= rate / 2 + 1) as (A & B & C).
-  { destruct (Rle_dec 0 low); destruct (Rlt_dec low high); destruct (Rle_dec high (rate / 2 + 1)); try lra;
-    exfalso; apply H; intros (X & Y & Z); lra. }
-  unfold Rmin. destruct (Rle_dec high (rate / 2)); lra.
+  intros H. apply tri_accepts_iff_l in H. destruct H as (A & B & C).
+  change (tri_high_some high rate) with (Rmin high (rate / 2)).
+  repeat split; try assumption; [apply Rmin_r | apply Rmin_l].
 Qed.
 
 Lemma tri_effective_high_none_l low rate :
   ~ tri_rejects_none low rate -> 0 <= low /\ low < tri_high_none rate /\ tri_high_none rate <= rate / 2.
 Proof.
   unfold tri_rejects_none, tri_high_none. cbv zeta. intros H.
+  assert (E : Rmin (rate / 2) (rate / 2) = rate / 2) by (unfold Rmin; destruct (Rle_dec _ _); reflexivity).
+  rewrite E in *.
   assert (0 <= low /\ low < rate / 2) as (A & B).
-  { destruct (Rle_dec 0 low); destruct (Rlt_dec low (rate / 2)); try lra; exfalso; apply H; intros (X & Y & Z); lra. }
-  unfold Rmin. destruct (Rle_dec (rate / 2) (rate / 2)); lra.
+  { destruct (Rle_dec 0 low); destruct (Rlt_dec low (rate / 2)); try lra; exfalso; apply H; intros [[X Y] Z]; lra. }
+  lra.
 Qed.
 
 (* Fbank, Gabor and gammatone share one test *)
@@ -352,15 +373,23 @@ Qed.
 Lemma gabor_effective_high_none_l rate : gabor_high_none rate <= rate / 2.
 Proof. unfold gabor_high_none. cbv zeta. apply Zfloor_half_le. Qed.
 
-(* observation (see NOTES.md): the 1 Hz leeway of the triangular bank admits a lower edge
-   above the Nyquist frequency, for which the clipped upper edge lies BELOW the lower edge *)
-Lemma tri_leeway_admits_inverted_range_l :
-  exists low high rate, ~ tri_rejects_some low high rate /\ tri_high_some high rate < low.
+(* RECORD of a repaired defect (see NOTES.md, fixed in /repo 82a0881).  The OLD triangular test
+   was  not (0 <= low < high <= nyquist + 1): its 1 Hz leeway admitted a lower edge above the
+   Nyquist frequency, for which the clipped upper edge lies BELOW the lower edge.  The test as it
+   is now rejects that witness. *)
+Definition tri_old_rejects (low high rate : R) : Prop :=
+  ~ (0 <= low /\ low < high /\ high <= rate / 2 + 1).
+
+Lemma tri_old_test_admitted_inverted_range_l :
+  exists low high rate, ~ tri_old_rejects low high rate /\ Rmin high (rate / 2) < low.
 Proof.
   exists (16001 / 2), (80009 / 10), 16000. split.
-  - apply tri_range_accepted_l; lra.
-  - unfold tri_high_some. cbv zeta. unfold Rmin. destruct (Rle_dec _ _); lra.
+  - unfold tri_old_rejects. intros H. apply H. lra.
+  - unfold Rmin. destruct (Rle_dec _ _); lra.
 Qed.
+
+Lemma tri_inverted_range_now_rejected_l : tri_rejects_some (16001 / 2) (80009 / 10) 16000.
+Proof. apply tri_range_rejected_l. lra. Qed.
 
 (* the hypotheses of the layout lemmas are satisfiable: mel scale, 20 Hz .. 4 kHz, 10 filters *)
 Example layout_hypotheses_satisfiable :
@@ -369,5 +398,5 @@ Proof.
   split; [apply mel_scale_ok_l; lra|]. split.
   - apply gabor_range_accepted_l; try lra. replace (16000 / 2) with (IZR 8000) by (simpl; lra).
     rewrite Zfloor_IZR. simpl. lra.
-  - apply tri_range_accepted_l; lra.
+  - apply tri_range_accepted_l; try lra. unfold Rmin. destruct (Rle_dec _ _); lra.
 Qed.
